@@ -285,3 +285,69 @@ func ZZ_C12_Fold(op1, op2, agg, nargs2 int) {
 	zzvrf.Assert(len(tps) == 1 && len(tps[0]) == 1 && zzvrf.BytesEq(eth.DecodeHex(tps[0][0]), ig.sighash), "topic-pushdown-is-signature-hash")
 	zzvrf.Reach("end")
 }
+
+// ZZ_C12_Ref: the indexed input carries a reference filter (filter_ref); the
+// referenced table's content is a symbolic membership answer. log_addr has a
+// filter with operator op2 and nargs2 arguments.
+func ZZ_C12_Ref(op2, agg, nargs2 int) {
+	ev := Event{Name: "Ev", Inputs: []Input{{Name: "a", Type: "bytes32", Indexed: true, Column: "c_a"}}}
+	ev.Inputs[0].Filter = Filter{Op: "contains", Ref: Ref{Integration: "x", Table: "xt", Column: "c"}}
+	bd := BlockData{Name: "log_addr", Column: "log_addr"}
+	var argsB [][]byte
+	for i := 0; i < nargs2; i++ {
+		b := make([]byte, 20)
+		for j := range b {
+			b[j] = byte(0x10*(i+1) + j)
+		}
+		argsB = append(argsB, b)
+		bd.Filter.Arg = append(bd.Filter.Arg, eth.EncodeHex(b))
+	}
+	bd.Filter.Op = zzOps[op2]
+	ig, err := New("ig1", ev, []BlockData{bd}, wpgTable("t", "c_a", "log_addr"), Notification{}, zzAggs[agg])
+	zzvrf.Assert(err == nil, "new-ok")
+	lg := zzMakeLog(2, nil)
+	copy(lg.lwc.l.Topics[0], ig.sighash)
+	conn := &zzConn{}
+	var rows [][]any
+	var perr error
+	panicked := false
+	func() {
+		defer func() {
+			if r := recover(); r != nil {
+				panicked = true
+			}
+		}()
+		rows, perr = ig.processLog(nil, lg.lwc, &sync.Mutex{}, conn)
+	}()
+	zzvrf.Assert(!panicked && perr == nil, "no-panic-no-error")
+	if panicked || perr != nil {
+		return
+	}
+	zzvrf.Assert(conn.lookups == 1, "reference-looked-up-once")
+	emitted := len(rows) == 1
+	// the membership answer is the only symbolic Boolean: recover it from the outcome
+	// by running the reference fold for both answers
+	r2, have2 := true, nargs2 > 0
+	if have2 {
+		r2 = zzBytesRef(zzOps[op2], lg.lwc.l.Address, argsB)
+	}
+	and := zzAggs[agg] == "and" || zzAggs[agg] == "AND"
+	wantIfMember, wantIfNot := true, false
+	if have2 {
+		if and {
+			wantIfMember, wantIfNot = r2, false
+		} else {
+			wantIfMember, wantIfNot = true, r2
+		}
+	}
+	zzvrf.Assert(zzvrf.Or(emitted == wantIfMember, emitted == wantIfNot), "row-emitted-iff-filters-accept")
+	// pushdown must keep every log some table content would accept
+	flt := ig.Filter()
+	addrs := flt.Addresses()
+	inList := len(addrs) == 0
+	for _, a := range addrs {
+		inList = zzvrf.Or(inList, zzvrf.BytesEq(eth.DecodeHex(a), lg.lwc.l.Address))
+	}
+	zzvrf.Assert(zzvrf.Implies(emitted, inList), "pushdown-keeps-accepted-log")
+	zzvrf.Reach("end")
+}
